@@ -2452,6 +2452,11 @@ bool mmd_engine_has_metadata(mmd_engine * e, size_t * end) {
 		// Already parsed
 		doc = old_root;
 	} else {
+		// Forget metadata found by an earlier call, so that entries don't accumulate
+		while (e->metadata_stack->size) {
+			meta_free(stack_pop(e->metadata_stack));
+		}
+
 		// Store stack sizes
 		temp = mmd_engine_create(NULL, 0);
 
@@ -2800,6 +2805,33 @@ void mmd_engine_update_metavalue_for_key(mmd_engine * e, const char * key, const
 		}
 	} else if (meta_end != 0) {
 		// We're appending metadata at the end
+
+		// If the block is closed by a YAML fence ("---"), stay inside it
+		size_t line = meta_end;
+
+		if ((line > 0) && (e->dstr->str[line - 1] == '\n')) {
+			line--;
+		}
+
+		if ((line > 0) && (e->dstr->str[line - 1] == '\r')) {
+			line--;
+		}
+
+		size_t fence = line;
+
+		while ((fence > 0) && (e->dstr->str[fence - 1] == '-')) {
+			fence--;
+		}
+
+		if ((line - fence >= 3) && (fence > 0) && (e->dstr->str[fence - 1] == '\n')) {
+			// Insert before the closing fence
+			meta_end = fence;
+		} else if (e->dstr->str[meta_end - 1] != '\n') {
+			// Last metadata line ends the source without a line ending
+			d_string_insert(e->dstr, meta_end, "\n");
+			meta_end++;
+		}
+
 		d_string_insert(e->dstr, meta_end, temp->str);
 	} else {
 		// There is no metadata, so prepend before document
@@ -2809,6 +2841,9 @@ void mmd_engine_update_metavalue_for_key(mmd_engine * e, const char * key, const
 
 	d_string_free(temp, true);
 	free(clean);
+
+	// The source text changed -- anything derived from the old text is stale
+	mmd_engine_reset(e);
 }
 
 
